@@ -60,6 +60,26 @@ def nodeval(w, n, asg):
         if not (isinstance(v, int) and 0 <= v < (1 << wd)):
             raise Malformed("BV constant %r does not fit %r bits" % (v, wd))
         return v
+    if op in ("FORALL", "EXISTS"):
+        names = []
+        doms = []
+        for v in p:
+            vs = sort_conc(w.sort_of_tyobj(w.npayload(v)[1]), asg)
+            if vs[0] not in ("BOOL", "BV") or (vs[0] == "BV" and vs[1] > 2):
+                raise refsem.NoSemantics("quantifier over %s" % (vs,))
+            names.append("sym:" + w.npayload(v)[0])
+            doms.append(refsem.domain(vs))
+        results = []
+        for combo in itertools.product(*doms):
+            a2 = dict(asg)
+            a2.update(zip(names, combo))
+            results.append(bool(nodeval(w, args[0], a2)))
+        return all(results) if op == "FORALL" else any(results)
+    if op == "FUNCTION":
+        table = asg.get("fun:" + w.npayload(p)[0])
+        if table is None:
+            raise refsem.NoSemantics("uninterpreted function without interpretation")
+        return table[tuple(nodeval(w, a, asg) for a in args)]
     vals = [nodeval(w, a, asg) for a in args]
     width = None
     payload = None
@@ -90,6 +110,7 @@ def sort_conc(sort, asg):
 
 
 def collect_symbols(w, nodes):
+    """name -> sort of every symbol occurring (free or bound) and of every applied function"""
     out = {}
     stack = list(nodes)
     seen = set()
@@ -98,8 +119,14 @@ def collect_symbols(w, nodes):
         if id(n) in seen:
             continue
         seen.add(id(n))
-        if w.opname(n) == "SYMBOL":
+        op = w.opname(n)
+        if op == "SYMBOL":
             out[w.npayload(n)[0]] = w.sort_of_tyobj(w.npayload(n)[1])
+        elif op == "FUNCTION":
+            f = w.npayload(n)
+            out[w.npayload(f)[0]] = w.sort_of_tyobj(w.npayload(f)[1])
+        elif op in ("FORALL", "EXISTS"):
+            stack.extend(w.npayload(n))
         stack.extend(w.nargs(n))
     return out
 
@@ -164,9 +191,24 @@ def assignments(w, nodes, facts, max_w=4, budget=60000):
             names.append(v)
             doms.append(dom)
         for s, sort in sorted(syms.items()):
+            sc_ = sort_conc(sort, base)
+            if sc_[0] == "FUN":
+                try:
+                    pd = [refsem.domain(sort_conc(x, base), small=True) for x in sc_[2]]
+                    rd = refsem.domain(sort_conc(sc_[1], base), small=True)
+                except refsem.NoSemantics:
+                    return
+                keys = list(itertools.product(*pd))
+                if len(rd) ** len(keys) > 300:
+                    rd = rd[:2]
+                    if len(rd) ** len(keys) > 300:
+                        return
+                names.append("fun:" + s)
+                doms.append([dict(zip(keys, vals)) for vals in itertools.product(rd, repeat=len(keys))])
+                continue
             names.append("sym:" + s)
             try:
-                doms.append(refsem.domain(sort_conc(sort, base), small=nvars > 3))
+                doms.append(refsem.domain(sc_, small=nvars > 3))
             except refsem.NoSemantics:
                 return
         for combo in itertools.product(*doms):
